@@ -17,6 +17,16 @@ import C08_gen as G  # noqa
 import C08_gen2 as G2  # noqa
 
 
+FIXED_NOW = set()      # ids of findings with status "fixed" (or assumed fixed through C08_ASSUME_FIXED)
+
+
+def strip_max0(p):
+    """3.9.2: a particle with minOccurs = maxOccurs = 0 corresponds to no component at all"""
+    if p[0] in ("S", "C"):
+        return (p[0], p[1], p[2], [strip_max0(c) for c in p[3] if not (c[1] == 0 and c[2] == 0)], p[4])
+    return p
+
+
 def enum_codes(path):
     t = open(path).read()
     body = t[t.index("enum Codes"):]
@@ -89,7 +99,9 @@ def cm_case(kind, p, words, rng, named_type=None, mixed=False, info=None):
         names = {l[3] for l in G.leaves(p) if l[0] == "E"}
         bad = any(q not in declared and q not in names and any(G.wild_allows(s[3], q[0]) for s in stricts) for q in w)
         pen.append(bad)
-    model = "cm P %s ; %s" % (G.model_particle(p), " ; ".join(",".join(G.qtext(q) for q in w) or "-" for w in words))
+    # once C08-max0 is repaired, the model and the Spec read the particle as the schema component it denotes
+    mp = strip_max0(p) if "C08-max0" in FIXED_NOW else p
+    model = "cm P %s ; %s" % (G.model_particle(mp), " ; ".join(",".join(G.qtext(q) for q in w) or "-" for w in words))
     req = G.request(model, [("main.xsd", doc)] + docs, "main.xsd", insts)
     return {"kind": kind, "request": req, "n": len(words), "strict_penalty": pen, "particle": p, "words": words,
             "info": info or {}}
@@ -223,6 +235,21 @@ class _NoDfa:
 
 
 NO_DFA_KINDS = _NoDfa()
+
+
+def attderiv_finding(info, mv, sv):
+    """attribution of a schema-level deviation shared by model and implementation.  By T08_attr_derivation the model
+    (= checkAttDerivationOK) and the Spec can only differ when the restriction declares a prohibited attribute the base
+    does not have (then the model is stricter) or when a list containing ##local is accepted under a ##other base
+    wildcard (then the model is laxer)"""
+    base_names = {d[0] for d in info["base"]}
+    stray = any(d[1] == "p" and d[0] not in base_names for d in info["decls"])
+    absent = info.get("base_wild") == "##other" and "##local" in (info.get("derived_wild") or "")
+    if sv and not mv and stray:
+        return "C08-attderiv-strayprohibited"
+    if mv and not sv and absent:
+        return "C08-wcsubset-absent"
+    return None
 
 
 def has_max0(p):
@@ -616,6 +643,9 @@ def gen_cases(ctx):
     # ---- 9. substitution groups over type chains; 10. attribute wildcard intersection / union --------------------
     cases += G2.subst_cases(rng, thorough)
     cases += G2.attwild_cases(rng, thorough)
+    # ---- 11. substitution groups through every content model implementation; 12. attribute-use derivation -------
+    cases += G2.subst_cm_cases(rng, thorough)
+    cases += G2.attderiv_cases(rng, thorough)
     return cases
 
 
@@ -627,6 +657,8 @@ def parse_impl(line):
     s1 = toks[1][3:] if len(toks) > 1 and toks[1].startswith("s1=") else "?"
     out = []
     for t in toks[2:]:
+        if t.startswith("cm="):
+            continue
         if t.startswith("DIS("):
             # the 8 runs did not print the same text: they must still agree on the verdict and on what they report
             rs = [x.split("@") for x in t[4:-1].split(";")]
@@ -650,6 +682,18 @@ def parse_impl(line):
 
 def run(ctx):
     t0 = time.time()
+    # C08_ASSUME_FIXED=id,id : treat these known findings as repaired (used to verify proposed fixes in a scratch tree)
+    assume_fixed = set(x for x in os.environ.get("C08_ASSUME_FIXED", "").split(",") if x)
+    if assume_fixed:
+        ctx.known = [f for f in ctx.known if f.get("id") not in assume_fixed]
+    FIXED_NOW.clear()
+    FIXED_NOW.update(assume_fixed)
+    try:
+        for f in json.load(open(os.path.join(V.VERIF, "known-findings.d", "C08.json")))["findings"]:
+            if f.get("status") == "fixed":
+                FIXED_NOW.add(f["id"])
+    except Exception:
+        pass
     ctx.coverage["trusted_base"] = list(V.GLOBAL_TRUSTED_BASE) + [
         "modelled rather than verified: schema component construction in TraverseSchema (which particle / attribute "
         "uses a given <xs:complexType> denotes) and the construction of DFAContentModel from the converted "
@@ -673,7 +717,7 @@ def run(ctx):
                   "strict_penalty": r.get("strict_penalty", [False] * r.get("n", 0)),
                   "schema_expect": tuple(r["schema_expect"]) if r.get("schema_expect") else None,
                   "info": r.get("info", {}), "particle": r.get("particle"), "words": r.get("words"),
-                  "attr": r.get("attr"), "attwild": r.get("attwild"), "expect_kids": r.get("expect_kids")}]
+                  "attr": r.get("attr"), "attwild": r.get("attwild"), "schema_verdict": r.get("schema_verdict"), "expect_cm": r.get("expect_cm"), "expect_kids": r.get("expect_kids")}]
     else:
         cases = gen_cases(ctx)
     lines = [c["request"] for c in cases]
@@ -698,6 +742,7 @@ def run(ctx):
     code_dis = [0]
     dfa_checked = [0]
     per_kind = {}
+    cm_classes = {}
 
     def viol(tag, payload, no_input=False):
         nonlocal nviol
@@ -713,8 +758,46 @@ def run(ctx):
         s0, s1, res = parse_impl(il)
         base = {"kind": case["kind"], "request": case["request"], "n": case["n"], "info": case.get("info"),
                 "strict_penalty": case.get("strict_penalty"), "schema_expect": case.get("schema_expect"),
-                "particle": case.get("particle"), "attr": case.get("attr"), "attwild": case.get("attwild"), "words": case.get("words"), "expect_kids": case.get("expect_kids"),
+                "particle": case.get("particle"), "attr": case.get("attr"), "attwild": case.get("attwild"), "schema_verdict": case.get("schema_verdict"), "expect_cm": case.get("expect_cm"), "words": case.get("words"), "expect_kids": case.get("expect_kids"),
                 "impl": il[:2000], "model": ml[:2000]}
+        cmcls = [t[3:] for t in il.split(" ")[:4] if t.startswith("cm=")]
+        if cmcls:
+            cm_classes[cmcls[0]] = cm_classes.get(cmcls[0], 0) + 1
+        if case.get("expect_cm") and cmcls and cmcls[0] != case["expect_cm"]:
+            viol("generator", dict(base, what="the schema shape no longer selects the intended XMLContentModel implementation",
+                                   got=cmcls[0], want=case["expect_cm"]), no_input=True)
+        if case.get("schema_verdict"):
+            # schema-level oracle: the schema loads with >= 1 error iff the Spec says the derivation is invalid
+            ctx.count()
+            ctx.distinct(("schema-verdict", case["request"][:400]))
+            iok0, iok1 = s0 == "ok", s1 == "ok"
+            mv, sv = ml[:1] == "V", ml[1:2] == "V"
+            # the model is the as-written checkAttDerivationOK; where a listed defect has been repaired the repaired code
+            # is the Spec clause itself (the two classes are the only differences, T08_attr_derivation)
+            if mv != sv and attderiv_finding(case["info"], mv, sv) in FIXED_NOW:
+                mv = sv
+            sd = dict(base, s0=s0, s1=s1, impl_ok=iok0, model_ok=mv, spec_ok=sv, model=ml,
+                      names=[names.get(c[0], {}).get(int(c[1:]), c) for c in (s0 + "," + s1).split(",") if c[1:].isdigit()])
+            for cd in s0.split(","):
+                if cd != "ok":
+                    codes_seen[cd] = codes_seen.get(cd, 0) + 1
+            if "DIS" in s0 or "DIS" in s1 or iok0 != iok1:
+                viol("schema", dict(sd, what="scanners / APIs / full-checking settings disagree on whether the schema is valid"))
+            elif iok0 != mv:
+                if iok0 != sv:
+                    viol("divergence", dict(sd, what="schema verdict differs from the model and violates the Spec "
+                                            "(Derivation Valid (Restriction, Complex) clauses 2-4)"))
+                else:
+                    viol("correspondence", dict(sd, what="model of checkAttDerivationOK differs from the implementation although "
+                                                "the implementation satisfies the Spec"), no_input=True)
+            elif mv != sv:
+                fid = attderiv_finding(case["info"], mv, sv)
+                if fid and ctx.find_known(fid):
+                    known[fid] = known.get(fid, 0) + 1
+                else:
+                    viol("spec", dict(sd, what="implementation and model agree on the schema verdict but violate the Spec "
+                                      "(not a listed finding)"))
+            continue
         if case.get("schema_expect") is not None:
             ctx.count()
             always, full = case["schema_expect"]
@@ -945,12 +1028,19 @@ def run(ctx):
                                        "intersected with ##local) over a base with ##other: the union is ##other (3.10.6 "
                                        "Union clause 5.4) but the schema is rejected with NotExpressibleWildCardIntersection "
                                        "(proposed repair: fixes/C08-attwildcard-empty-union.patch)",
+             "C08-attderiv-strayprohibited": "a restriction that declares use=prohibited for an attribute the base type does not "
+                                             "have is rejected with BadAttDerivation_5 (a prohibited declaration is no attribute "
+                                             "use, nothing is derived; proposed repair fixes/C08-attderiv-stray-prohibited.patch)",
+             "C08-wcsubset-absent": "a restriction whose attribute wildcard is a list containing ##local is accepted under a base "
+                                    "wildcard ##other, which does not allow unqualified attributes (Wildcard Subset clause 3.2.2; "
+                                    "proposed repair fixes/C08-wcsubset-absent.patch)",
              "C08-prohibited": "an attribute declared with use=prohibited (which corresponds to no attribute use at all) is "
                                "rejected with ProhibitedAttributePresent even when the type's attribute wildcard allows it"}
     for fid, nhit in known.items():
         if nhit:
             ctx.known_finding(fid, "%s; %d instances of this class" % (texts[fid], nhit))
     ctx.coverage["spec_oracle_checked"] = ctx.coverage["evaluations"]
+    ctx.coverage["content_model_class_of_root_type"] = cm_classes
     ctx.coverage["dfa_model_compared_with_full_checking_off_runs"] = dfa_checked[0]
     if proof_broken and not ctx.violations:
         ctx.violation("obligation", {"what": "Coq obligation no longer checks and no failing input was found by the "
